@@ -35,12 +35,13 @@ def gen(rng, tier):
         for d in dims:
             total *= d
         for fam in (c17.fams_for(dims) if max(dims) <= 4 or len(dims) == 1 else ["unl", "lab"]):
-            probes = [(4, 0), (5, 0), (6, 0), (7, 0), (7, 1)]
+            mid = [k for k in (1, 2, dims[-1] + 1, total - 1) if 0 < k <= total]
+            probes = [(4, 0), (5, 0), (6, 0), (7, 0), (8, 0)] + [(kd, k) for kd in (4, 5, 7, 8) for k in sorted(set(mid))]
             ks = sorted(set([0, 1, 2, 3, dims[-1], dims[-1] + 1, 2 * dims[-1], 2 * dims[-1] + 1, total - 1, total, total + 1])
                         & set(range(0, total + 2)))
             probes += [(1, k) for k in ks] + [(2, k) for k in ks if k > 0] + [(3, s) for s in (1, 2, 3, dims[-1] + 1) if s >= 1]
             if tier == "quick" and len(dims) > 1:
-                probes = [pr for i, pr in enumerate(probes) if pr[0] in (4, 5, 6) or rng.chance(1, 2)]
+                probes = [pr for i, pr in enumerate(probes) if (pr[0] in (4, 5, 6) and pr[1] == 0) or rng.chance(1, 2)]
             for kind, k in probes:
                 out.append(Case("arr_adapt", "i64", fam, "-", dims, [kind, k], mop="-",
                                 tag="adaptors_rank%d_%s" % (len(dims), fam)))
@@ -54,8 +55,8 @@ def lex(dims):
     return out
 
 
-ADAPT_NAMES = {1: "nth(%d) then next()", 2: "skip(%d)", 3: "step_by(%d)", 4: "count()", 5: "last()", 6: "size_hint() then next()",
-               7: "%d x next() then fold"}
+ADAPT_NAMES = {1: "nth(%d) then next()", 2: "skip(%d)", 3: "step_by(%d)", 4: "%d x next() then count()", 5: "%d x next() then last()",
+               6: "size_hint() then next()", 7: "%d x next() then fold", 8: "%d x next() then reduce"}
 
 
 def adapt_predicates(c, ri):
@@ -73,9 +74,12 @@ def adapt_predicates(c, ri):
     elif kind == 3:
         want = flat(L[::max(k, 1)]) + tail
     elif kind == 4:
-        want = [len(L)]
+        want = [len(L[k:])]
     elif kind == 5:
-        want = L[-1] if L else [-2]
+        want = L[-1] if L[k:] else [-2]
+    elif kind == 8:
+        rest = L[k:]
+        want = (max(rest) if rest else [-2]) + [max(len(rest) - 1, 0)]
     elif kind == 6:
         lo, hi = log[0], log[1]
         if lo > len(L) or (hi != -1 and hi < len(L)):
